@@ -23,7 +23,7 @@ Clause map
   language; the accepted look-aheads of real parses are judged against the real iterator.
 * "each node type is listed … allowed type (through supertypes) … required … multiple" —
   `Conforms` (declarative) and `conforms_iff` (the executable judge decides exactly `Conforms`,
-  for every file whose child-type objects saturate, `ntWF`, and every tree).
+  for every file and every tree; the supertype saturation provably converges, `closure_always_converges`).
 * "Symbol and field names round-trip through their ids" — `name_roundtrip` (soundness of the
   decidable checks `namesRoundTrip`, `pubConsistent` evaluated on every real symbol table) and
   `field_roundtrip` (all tables with pairwise distinct field names).
@@ -108,9 +108,7 @@ theorem lookahead_done_stays (L : Lang) (it : Iter) (h : (next L it).1 = false) 
 /-! ## node types -/
 
 mutual
-  /-- `conforms_iff`: on every node-types file whose child-type objects saturate and on every
-  tree, the executable judge decides exactly the declarative conformance. -/
-  theorem conforms_iff (nt : NodeTypes) (h : ntWF nt = true) : ∀ vt : VT,
+  theorem conforms_iff_wf (nt : NodeTypes) (h : ntWF nt = true) : ∀ vt : VT,
       checkConforms nt vt = true ↔ Conforms nt vt
     | .node ty ex fl kids => by
       simp only [checkConforms, Conforms, Bool.and_eq_true, nodeOK_iff h, conformsAll_iff nt h kids]
@@ -118,13 +116,23 @@ mutual
       checkAll nt kids = true ↔ ConformsAll nt kids
     | [] => by simp [checkAll, ConformsAll]
     | k :: ks => by
-      simp only [checkAll, ConformsAll, Bool.and_eq_true, conforms_iff nt h k, conformsAll_iff nt h ks]
+      simp only [checkAll, ConformsAll, Bool.and_eq_true, conforms_iff_wf nt h k, conformsAll_iff nt h ks]
 end
 
+/-- `conforms_iff`: for EVERY node-types file and EVERY tree the executable judge decides exactly the
+declarative conformance.  (No side condition: the supertype saturation provably converges within
+`closureFuel nt` rounds, `ntWF_always` — each round that is not yet closed adds a new member of the
+finite set of types mentioned in `subtypes` lists.) -/
+theorem conforms_iff (nt : NodeTypes) (vt : VT) : checkConforms nt vt = true ↔ Conforms nt vt :=
+  conforms_iff_wf nt (ntWF_always nt) vt
+
+/-- the saturation always converges -/
+theorem closure_always_converges (nt : NodeTypes) (roots : List TypeRef) :
+    (closure nt (closureFuel nt) roots).isSome = true := closure_isSome nt roots
+
 /-- `allowed` decides "an allowed type (through supertypes)" for every saturating type list. -/
-theorem allowed_iff_reach (nt : NodeTypes) (spec : ChildSpec) (t : TypeRef)
-    (h : (closure nt (closureFuel nt) spec.types).isSome = true) :
-    allowed nt spec t = true ↔ Reach nt spec.types t := allowed_iff h
+theorem allowed_iff_reach (nt : NodeTypes) (spec : ChildSpec) (t : TypeRef) :
+    allowed nt spec t = true ↔ Reach nt spec.types t := allowed_iff (closure_isSome nt spec.types)
 
 /-! ## names -/
 
@@ -186,11 +194,11 @@ def exTree : VT :=
 
 example : ntWF exNT = true := by decide
 example : checkConforms exNT exTree = true := by decide
-example : Conforms exNT exTree := (conforms_iff exNT (by decide) exTree).1 (by decide)
+example : Conforms exNT exTree := (conforms_iff exNT exTree).1 (by decide)
 /-- a required field left empty does not conform -/
 example : ¬ Conforms exNT (.node ⟨"neg", true⟩ false [] [.node ⟨"-", false⟩ false [] []]) :=
   fun h => by
-    have := (conforms_iff exNT (by decide) _).2 h
+    have := (conforms_iff exNT _).2 h
     revert this; decide
 
 def exTab : SymTab :=
@@ -217,7 +225,7 @@ def witNT : NodeTypes :=
     { ty := ⟨";", false⟩, fields := [], children := none, subtypes := none } ]
 example : ¬ Conforms witNT (.node ⟨"statement", true⟩ false [] [.node ⟨"variable_name", true⟩ false [] [], .node ⟨";", false⟩ false [] []]) :=
   fun h => by
-    have := (conforms_iff witNT (by decide) _).2 h
+    have := (conforms_iff witNT _).2 h
     revert this; decide
 
 end TsVerif.C16
